@@ -6,6 +6,7 @@ import (
 	"os"
 	"path/filepath"
 	"sort"
+	"strings"
 	"time"
 
 	"gsx/interp"
@@ -127,6 +128,30 @@ func (ev *evidence) write(rc *runCtx) {
 	if ev.spec.Level == "translation_validation" {
 		cov["programs"] = states
 		cov["disagreements_checked"] = ev.TracesValidated
+	}
+	// diagnostic-level properties: on which checkers did an explored path produce a diagnostic at all?
+	if rc.id == "C07" || rc.id == "C09" {
+		with, without := map[string]bool{}, map[string]bool{}
+		for _, h := range ev.Harnesses {
+			name := strings.TrimPrefix(strings.TrimPrefix(h.Harness, "gsxVisit_"), "gsxWalk_")
+			if name == h.Harness {
+				continue
+			}
+			if h.Reached["warning"] > 0 {
+				with[name] = true
+			} else {
+				without[name] = true
+			}
+		}
+		var none []string
+		for n := range without {
+			if !with[n] {
+				none = append(none, n)
+			}
+		}
+		sort.Strings(none)
+		cov["checkers_with_a_diagnostic_on_an_explored_path"] = len(with)
+		cov["checkers_without_a_diagnostic_within_the_bounds"] = none
 	}
 	for k, v := range ev.ExtraCoverage {
 		cov[k] = v
